@@ -82,8 +82,10 @@ PROPS = {
         level_text="The full product of method x path (incl. %2F, %20, //) x query x header set x body shape x strip x prepend x host option x target query (36k quick, 72k thorough) and an upstream response matrix (status x headers x body shape x method) plus the no-route matrix are executed on the real HTTPProxy.ServeHTTP and httputil.ReverseProxy against a real loopback upstream; every observable (method, request-target, Host, headers, body, status) is compared with the statement's rewrite rules.",
         level_note="Requests enter through http.ReadRequest (the parser net/http's server uses) and a ResponseRecorder instead of a client socket; wire framing of the proxy's own server is net/http's and not re-checked. Hop-by-hop headers are not asserted either way.",
         units=[
-        unit("c07", "proxy", PROXY_COMMON + ["proxy/c07_test.go"], "^TestVerifC07"),
-    ], layers={"quick": ["c07-request", "c07-response", "c07-wire"], "thorough": ["c07-request", "c07-response", "c07-wire"]}),
+        unit("c07", "proxy", PROXY_COMMON + ["proxy/c07_test.go"], "^TestVerifC07(Request|Response|Wire|History)"),
+        unit("c07-sched", "proxy", PROXY_COMMON + ["proxy/c07_sched_test.go"], "^TestVerifC07Sched", engines=SCHED, race=True, sched_env={"GOMAXPROCS": "1"}, shards={"quick": 1, "thorough": 8},
+             rewrite=ROUTE_RW + [{"files": ["proxy/http_proxy.go", "proxy/http_handler.go", "proxy/http_headers.go"], "opts": ["-imports", "-stmt"]}]),
+    ], layers={"quick": ["c07-request", "c07-response", "c07-wire", "c07-history", "c07-sched"], "thorough": ["c07-request", "c07-response", "c07-wire", "c07-history", "c07-sched"]}),
     "C08": dict(level="exploration", engine="benum",
         technique="bounded-exhaustive product of header configurations x connection kinds x every subset of forged managed headers through the real HTTPProxy (and real plain/TLS listeners for websockets)",
         level_text="Every header-related configuration (72 quick / 144 thorough) x plain/TLS x all 2^8 subsets of client-forged managed headers (+ repeated and lower-case spellings) x Host with/without port x IPv4/IPv6 peer, plus websocket upgrades over real plain and TLS listeners, is served by the real proxy to a recording upstream and checked against the six clauses of the statement.",
@@ -199,7 +201,7 @@ PROPS = {
 }
 
 LAYER_UNIT = {"c06-sched": "c06", "c03-select": "c03", "c03-lookuphost": "c03", "c04-add": "c04", "c04-weightcmd": "c04", "c05-commands": "c05",
-              "c07-request": "c07", "c07-response": "c07", "c07-wire": "c07", "c08-headers": "c08", "c08-websocket": "c08", "c09-tunnels": "c09", "c09-websocket": "c09-ws",
+              "c07-request": "c07", "c07-response": "c07", "c07-wire": "c07", "c07-history": "c07", "c08-headers": "c08", "c08-websocket": "c08", "c09-tunnels": "c09", "c09-websocket": "c09-ws",
               "c10-sni": "c10", "c12-rules": "c12-rules", "c13-inputs": "c13", "c13-sched": "c13", "c14-registrations": "c14", "c15-sources": "c15-config",
               "c15-robust": "c15-config", "c16-calls": "c16", "c16-history": "c16", "c19-config": "c19", "c19-behaviour": "c19", "c20-fields": "c20-logger",
               "c20-formats": "c20-logger", "c20-atoi": "c20-logger", "c01-health": "c01-health"}
